@@ -217,6 +217,12 @@ let ep_family (r : rng) (count : int) : (bool * spos) list =
           let pc = [| Rook; Bishop; Queen; Knight; Rook; Queen |].(rand r 6) in
           a.(q) <- Some ((if chance r 3 5 then them else s), pc)
         done;
+        (* one time in three an enemy rook or QUEEN on the pawns' rank (the horizontal discovery when both pawns leave it) *)
+        if chance r 1 3 then begin
+          match List.filter (fun q -> q / 8 = prank) (free ()) with
+          | [] -> ()
+          | l -> a.(pick r l) <- Some (them, (if chance r 1 2 then Queen else Rook))
+        end;
         let p = spos_of_array a s ~ep:(Some epsq) () in
         if lc true p then out := (true, p) :: !out
       end
